@@ -40,3 +40,38 @@ package reclaimable
 //@     invariant forall k in visited :: !satBad(reclaimerAllocated[k], reclaimerFair[k], siblingAlloc[k], siblingFair[k], r.saturationMultiplier)
 //@   ensures result == (forall k in involvedResources :: !satBad(reclaimerAllocated[k], reclaimerFair[k], siblingAlloc[k], siblingFair[k], r.saturationMultiplier))
 //@ end
+
+// ---- involved resource names ---------------------------------------------------------------
+// A resource name is "involved" iff some non-nil element of the slice requests a strictly positive
+// amount of it (GPU: the whole-GPU field `gpus`; MIG instances are not looked at by the code).
+//@ define cpuInv(s []*ri.Resource, n int) bool = exists i int :: 0 <= i && i < n && s[i] != nil && s[i].milliCpu > 0.0
+//@ define memInv(s []*ri.Resource, n int) bool = exists i int :: 0 <= i && i < n && s[i] != nil && s[i].memory > 0.0
+//@ define gpuInv(s []*ri.Resource, n int) bool = exists i int :: 0 <= i && i < n && s[i] != nil && s[i].gpus > 0.0
+
+//@ func getInvolvedResourcesNames
+//@   props C07
+//@   fresh
+//@   loop 1
+//@     invariant 0 - 1 <= rangeindex && rangeindex < len(resources)
+//@     invariant involvedResources != nil
+//@     invariant ("CPU" in involvedResources) == cpuInv(resources, rangeindex + 1)
+//@     invariant ("Memory" in involvedResources) == memInv(resources, rangeindex + 1)
+//@     invariant ("GPU" in involvedResources) == gpuInv(resources, rangeindex + 1)
+//@     invariant forall k in involvedResources :: k == "CPU" || k == "Memory" || k == "GPU"
+//@     decreases len(resources) - rangeindex
+//@   ensures result != nil
+//@   ensures ("CPU" in result) == cpuInv(resources, len(resources))
+//@   ensures ("Memory" in result) == memInv(resources, len(resources))
+//@   ensures ("GPU" in result) == gpuInv(resources, len(resources))
+//@   ensures forall k in result :: k == "CPU" || k == "Memory" || k == "GPU"
+//@ end
+
+// ---- queue tree ------------------------------------------------------------------------------
+// Well-formed queue map: every value is non-nil and stored under its own UID (proportion.go builds
+// the map as queues[q.UID] = q).
+//@ define wfQueues(queues map[common_info.QueueID]*rs.QueueAttributes) bool = forall k in queues :: queues[k] != nil && queues[k].UID == k
+// Acyclicity of the parent relation, witnessed by a ranking that strictly decreases towards the root.
+// NOT established by the current code (C10: UpdateQueueHierarchy accepts parent cycles); it is the
+// termination precondition of every parent-chain loop in this package.
+//@ declare rank(q common_info.QueueID) int
+//@ define acyclic(queues map[common_info.QueueID]*rs.QueueAttributes) bool = forall k in queues :: rank(k) >= 0 && (queues[k].ParentQueue in queues ==> rank(queues[k].ParentQueue) < rank(k))
